@@ -1,9 +1,9 @@
 SPECIFICATION Spec
 CONSTANTS
-  G = 4
-  DegInit = FALSE
-  MaxSpan = 99
-  MaxOps = 5
-  Weights <- W1
+  G = 30
+  DegInit = TRUE
+  MaxSpan = 3
+  MaxOps = 18
+  Weights <- W3
   Emit = TRUE
 INVARIANTS Sorted NonEmpty InBounds NoExcluded OfferOk NoLoss EmitDone
